@@ -228,6 +228,28 @@ Definition merge_self_m (mode : Z) (grp : list Z) (nseq : Z) (L : layout) : layo
      ord := ord L; wal := wal L; wreq := wreq L |}.
 Definition merge_self (current : bool) := merge_self_m (if current then 1 else 0).
 
+(* today's order in general: chunks of one series leave the heap by minimum time; the order of chunks with EQUAL minimum
+   time is whatever the binary heap's array happens to give. rank = a tie-break (position of the file's sequence in a
+   permutation pi of the members); the evaluator searches pi (Corr.v step_obs, mode 3). *)
+Fixpoint index_of (x : Z) (l : list Z) (i : Z) : Z :=
+  match l with [] => i | y :: r => if x =? y then i else index_of x r (i + 1) end.
+Fixpoint ins_by_min_rank (rank : file -> Z) (s : Z) (f : file) (l : list file) : list file :=
+  match l with
+  | [] => [f]
+  | x :: l' => if (min_key s f <? min_key s x) || ((min_key s f =? min_key s x) && (rank f <? rank x)) then f :: l
+               else x :: ins_by_min_rank rank s f l'
+  end.
+Definition sort_by_min_rank (rank : file -> Z) (s : Z) (l : list file) : list file :=
+  fold_left (fun acc f => ins_by_min_rank rank s f acc) l [].
+Definition self_prod_rank (rank : file -> Z) (members : list file) : table :=
+  concat (map (fun s => sel s (ooo_prod (sort_by_min_rank rank s (filter (has_series s) members)))) (all_series members)).
+Definition merge_self_rank (pi : list Z) (grp : list Z) (nseq : Z) (L : layout) : layout :=
+  let members := filter (in_grp grp) (ooo L) in
+  let merged := self_prod_rank (fun f => index_of (f_seq f) pi 0) members in
+  {| mem := mem L; snap := snap L;
+     ooo := match members with [] => ooo L | _ => replace_run grp {| f_seq := nseq; f_tab := merged |} (ooo L) false end;
+     ord := ord L; wal := wal L; wreq := wreq L |}.
+
 (* out-of-order merge into the ordered files: the consumed out-of-order files (grp) are folded over the ordered
    rows; the result is laid out again over the ordered files. bounds gives, per resulting ordered file (sequence) and
    series, the last time the file holds for that series - the choice the merge made; a row goes to the first file
